@@ -44,3 +44,11 @@ func verifThaw()
 // vhQuery runs a query; natively under the race detector it is run from two
 // goroutines at once (rt_native.go).
 func vhQuery(f func() []any) []any { return f() }
+
+// verifShared(root): declares the structure shared by the goroutines that the
+// harness starts with vhGo; verifJoin waits for all of them.
+func verifShared(root any)
+func verifJoin()
+
+// vhGo starts a goroutine (an engine thread under the symbolic executor).
+func vhGo(f func()) { go f() }
